@@ -381,6 +381,13 @@ def run(ctx):
         add('num', ' '.join(part) + '\n' + '\n'.join('x ' + n for n in part) + '\n' + '\n'.join(n + ';' for n in part) + '\n')
     add('splice', '\n'.join(gen_splices()) + '\n')
     add('prefix', '\n'.join('x ' + c for c in PREFIX_CASES) + '\n' + ' '.join(c for c in PREFIX_CASES if '\n' not in c and '//' not in c) + '\n')
+    # the FIRST long token of a file, at and around the lengths at which a doubling token buffer grows (every character is kept)
+    for n in (255, 256, 257, 258, 511, 512, 513, 1024, 1025, 4097):
+        for mk in (lambda k: 'a' + 'bcdefghij' * (k // 9 + 1), lambda k: '1' + '234567890' * (k // 9 + 1), lambda k: '"' + 'stuvwxyz0' * (k // 9 + 1)):
+            tok = mk(n)[:n]
+            if tok[0] == '"':
+                tok = tok[:-1] + '"'
+            add('longtok', tok + ' ' + tok + ';\nshort ' + tok + '\n')
     add('bytes', b''.join(b'x ' + bytes([b]) + b' y' + bytes([b]) + b'z\n' for b in range(0, 256) if b not in (0x22, 0x27, 0x0a, 0x5c)) +
         b'x \\ y\\z \\\\ w\n')
     nseq = 120 if not thorough else 8000
